@@ -516,6 +516,9 @@ func evalWhileLoopStmt(vm *r.VM, node *syntax.WhileLoopStmt) error {
 	// set context's current scope with new one
 
 	for {
+		// the condition belongs to the 每当 line on every pass (the body's
+		// statements have moved the current line meanwhile)
+		vm.SetCurrentLine(node.GetCurrentLine())
 		// #1. first execute expr
 		trueExpr, err := evalExpression(vm, node.TrueExpr)
 		if err != nil {
@@ -568,6 +571,10 @@ func evalBranchStmt(vm *r.VM, node *syntax.BranchStmt) error {
 	}
 	// exec else-if branches
 	for idx, otherExpr := range node.OtherExprs {
+		// a 再如 condition has its own line
+		if line := otherExpr.GetCurrentLine(); line > 0 {
+			vm.SetCurrentLine(line)
+		}
 		otherExprI, err := evalExpression(vm, otherExpr)
 		if err != nil {
 			return err
